@@ -3,7 +3,8 @@
    of the model below (the behaviour of the repository before the fix commits) violates a theorem. *)
 From Coq Require Import List Bool ZArith.
 From Coercion.Base Require Import Plan.
-From Coercion.Store Require Import Tree Rows Spec SqliteModel SqliteRep SqliteRepDec SqliteProofs SqliteRefine SqliteTheorems StoreCheck.
+From Coercion.Store Require Import Tree Rows Spec SqliteModel SqliteRep SqliteRepDec SqliteProofs SqliteRefine SqliteTheorems
+     CosmosModel CosmosRep CosmosTheorems StoreCheck.
 Import ListNotations.
 
 (* the perfect codec of the correspondence check satisfies the round-trip premises *)
@@ -116,4 +117,56 @@ Example dev_S6_refutes_C14 :
   /\ snd (SqliteModel.create enc_req0 enc_att0 p_s6 []) = false
   /\ length (pln_actions p_s6) = 3
   /\ option_map (fun q => length (pln_actions q)) (SqliteModel.read dec_req0 dec_att0 (sp_id p_s6) (fst (create_S6 p_s6 []))) = Some 2.
+Proof. vm_compute. repeat split; reflexivity. Qed.
+
+(* ---- cosmosdb: the domain of the cosmosdb theorems is inhabited by a non-trivial list ---- *)
+Definition ex_cops : list op :=
+  [ OCreate p1; OCreate p2; OUpdateBlock (u 11) (u 14) st1; OUpdateAction (u 11) (u 17) st1 [att1];
+    OUpdatePlan (u 11) FRBlock st1 1700000000000000000; OCreate p1; OCreate p_bad; ODelete (u 21); ODelete (u 21) ].
+
+Lemma fresh_by_computation (p : spln) (s : store) :
+  nodupb (pln_ids p) = true ->
+  forallb (fun i => negb (uid_nil i)) (pln_ids p) = true ->
+  forallb (fun q => forallb (fun i => negb (memb i (pln_ids q))) (pln_ids p)) s = true ->
+  NoDup (pln_ids p) /\ Forall (fun i => uid_nil i = false) (pln_ids p)
+  /\ (forall q i, In q s -> In i (pln_ids p) -> ~ In i (pln_ids q)).
+Proof.
+  intros H1 H2 H3. split; [now apply nodupb_sound|]. split.
+  - eapply forallb_Forall; [|exact H2]. intros x Hx. now apply negb_true_iff in Hx.
+  - intros q i Hq Hi Hin. rewrite forallb_forall in H3. specialize (H3 q Hq).
+    rewrite forallb_forall in H3. specialize (H3 i Hi). apply memb_In in Hin. now rewrite Hin in H3.
+Qed.
+
+Example ex_cops_ok : cops_ok enc_req0 enc_att0 req_ok0 att_ok0 [] ex_cops.
+Proof.
+  unfold ex_cops. cbn [cops_ok]. repeat split.
+  - (* create p1 *) vm_compute. repeat constructor.
+  - right. apply fresh_by_computation; vm_compute; reflexivity.
+  - (* create p2 *) vm_compute. repeat constructor.
+  - right. apply fresh_by_computation; vm_compute; reflexivity.
+  - (* update block 14 of plan 11 *) vm_compute. eexists. split; [left; reflexivity|]. split; [reflexivity|]. simpl. tauto.
+  - (* update action 17 *) vm_compute. eexists. eexists. split; [left; reflexivity|]. split; [reflexivity|]. split; [vm_compute; right; right; left; reflexivity | reflexivity].
+  - intros q a Hq Ha Hid. repeat constructor.
+  - (* update plan 11, carrying its stored submit time *) vm_compute. eexists. split; [left; reflexivity|]. split; reflexivity.
+  - (* duplicate create *) vm_compute. repeat constructor.
+  - left. vm_compute. tauto.
+  - (* unencodable create *) vm_compute. repeat constructor.
+  - right. apply fresh_by_computation; vm_compute; reflexivity.
+Qed.
+
+Example ex_cosmos_results :
+  CosmosModel.results enc_req0 dec_req0 enc_att0 dec_att0 ex_cops cempty
+  = [true; true; true; true; true; false; false; true; false].
+Proof. vm_compute. reflexivity. Qed.
+
+Example ex_cosmos_agrees_with_spec :
+  map (fun id => CosmosModel.read dec_req0 dec_att0 id (CosmosModel.run enc_req0 dec_req0 enc_att0 dec_att0 ex_cops cempty))
+      [u 11; u 21; u 31; u 99]
+  = map (fun id => Spec.read id (Spec.run enc_req0 enc_att0 ex_cops [])) [u 11; u 21; u 31; u 99].
+Proof. vm_compute. reflexivity. Qed.
+
+(* the two-batch gap, concretely: stage 1 = the search batch fails *)
+Example ex_cosmos_gap :
+  let '(c, ok) := CosmosModel.create_stage enc_req0 dec_req0 enc_att0 dec_att0 1 p1 cempty in
+  ok = false /\ option_map sp_id (CosmosModel.read dec_req0 dec_att0 (u 11) c) = Some (u 11) /\ snd c = [].
 Proof. vm_compute. repeat split; reflexivity. Qed.
